@@ -48,27 +48,27 @@ CHECKS = {
    note="After a malformed protocol string only the 'nothing before a valid handshake' clauses are asserted.",
    design="6/C08"),
  "C09": dict(
-   technique="stateful property-based testing (proptest request histories incl. the manager's real choke rotation) on the swarm runtime; oracle matches every Piece frame to a prior request and to the stored bytes",
+   technique="stateful property-based testing (proptest request histories incl. the manager's real choke rotation) on the swarm runtime; oracle matches every Piece frame to a prior request and to the stored bytes; coverage-guided libFuzzer campaign over the same histories (target fz_hist: hand-written byte decoder, the check's own oracle inside the target; thorough)",
    text="Edge-biased (index, begin, length) triples over u32^3 (wrapping sums, exact/one-beyond piece end, 0/16384/16385 lengths, unowned and out-of-range pieces, piece switching) interleaved with interest changes and real rotations that make the client choke/unchoke the peer: every Piece answers exactly one prior request with exactly the stored bytes, <=16 KiB, inside an owned piece, requested while unchoked; no panic.",
    note="Requests are sent after a barrier so 'the client's last word' is unambiguous.",
    design="6/C09"),
  "C10": dict(
-   technique="stateful property-based testing (proptest answer disciplines) on the swarm runtime; oracle = reference tiling per assignment epoch plus an exact acceptance model (one block per barrier)",
+   technique="stateful property-based testing (proptest answer disciplines) on the swarm runtime; oracle = reference tiling per assignment epoch plus an exact acceptance model (one block per barrier); coverage-guided libFuzzer campaign over the same histories (target fz_hist: hand-written byte decoder, the check's own oracle inside the target; thorough)",
    text="One honest-content peer answers in generated order, duplicates, withholds, chokes/unchokes, announces late, over piece lengths around multiples of 16 KiB and shorter last pieces: every request is a block of the reference tiling, <=16 KiB, never repeated within an assignment, only for advertised pieces; an accepted block is followed by exactly one request while blocks remain; a piece is complete exactly when its last outstanding block has arrived.",
    note="Block order within a piece is not asserted.",
    design="6/C10"),
  "C11": dict(
-   technique="stateful property-based testing (proptest global schedules over suppliers and observers) on the swarm runtime; oracle from the manager's handled completion order (A) and the verified disk state (D)",
+   technique="stateful property-based testing (proptest global schedules over suppliers and observers) on the swarm runtime; oracle from the manager's handled completion order (A) and the verified disk state (D); coverage-guided libFuzzer campaign over the same histories (target fz_hist: hand-written byte decoder, the check's own oracle inside the target; thorough)",
    text="Suppliers complete pieces (some corrupt) while observers handshake, choke and unchoke at generated points, also racing with completions inside one barrier: bitfields satisfy A(at Init) <= bits <= D with zero spare bits, every Have(i) has i verified on disk, Haves for completions after the observer's Init arrive in completion order and none is missing whenever the observer is not choking the client.",
    note="< 32 completions between barriers (broadcast capacity). D sampled at barriers (monotone).",
    design="6/C11"),
  "C12": dict(
-   technique="stateful property-based testing (proptest histories of wire events over up to 5 scripted peers, scenario templates for deep states) through the real connection tasks and manager; invariants after every barrier; committed corpus replay",
+   technique="stateful property-based testing (proptest histories of wire events over up to 5 scripted peers, scenario templates for deep states) through the real connection tasks and manager; invariants after every barrier; committed corpus replay; coverage-guided libFuzzer campaign over the same histories (target fz_hist: hand-written byte decoder, the check's own oracle inside the target; thorough)",
    text="Histories of join/have/choke/unchoke(x2)/interest/deliver/disconnect over 3-16 single-block pieces: Have monotone; every Reserved piece is assigned to a connected, non-choking peer that has been asked for it in its current assignment; requests only for advertised, lacked pieces; no manager/task panic; an honest seeder can always finish the download.",
    note="Only command sequences real tasks can emit reach the manager (driven through the wire). One-directional reservation invariant, as the statement.",
    design="6/C12"),
  "C13": dict(
-   technique="property-based testing (proptest) on constructed manager states; oracle = validity predicate (rarest-first among candidates) that any tie-break must satisfy",
+   technique="property-based testing (proptest) on constructed manager states; oracle = validity predicate (rarest-first among candidates) that any tie-break must satisfy; the wire-driven histories of C12 judged by this property's clauses (proptest + coverage-guided libFuzzer campaign fz_hist in the thorough tier)",
    text="Generated status vectors (missing count forced to 9/10/11 among others, Reserved mixed in) and 1-6 peers with generated advertised sets; the real choose_piece_index is called 8x per state; the pick must be a candidate of minimal availability, None iff no candidate.",
    note="States are constructed through set-up hooks; rdest's shuffle is unseeded, hence a validity predicate rather than one expected answer.",
    design="6/C13"),
@@ -93,17 +93,17 @@ CHECKS = {
    note="`path` entries are byte strings; numeric fields non-negative in the faithful sub-check.",
    design="6/C17"),
  "C18": dict(
-   technique="property-based testing (proptest): metamorphic/decoding oracle on the announce URL (independent form-urlencoded decoder) + real TrackerClient against a loopback HTTP listener",
+   technique="property-based testing (proptest): metamorphic/decoding oracle on the announce URL (independent form-urlencoded decoder) + real TrackerClient against a loopback HTTP listener + generated real-process runs of unmodified Session::run() in private network namespaces (announced port = listening port)",
    text="Random 20-byte info-hashes steered to contain special bytes, alphanumeric ids, announce URLs with/without port, path, existing query or trailing '?'; the URL built by the client and the request line actually received by a loopback listener must keep host/path/existing parameters and carry exactly one info_hash decoding to the hash, plus peer_id, port, left.",
    note="Peer ids alphanumeric (property's domain). reqwest/hyper are part of the system under test on the wire sub-check.",
    design="6/C18"),
  "C19": dict(
-   technique="property-based testing (proptest): model-based generation of tracker replies with malformed entries, mutation testing for totality; libFuzzer target fz_tracker_resp (thorough)",
+   technique="property-based testing (proptest): model-based generation of tracker replies with malformed entries, mutation testing for totality; libFuzzer target fz_tracker_resp (thorough); TrackerClient::run under a paused clock against a failing loopback tracker (outages of up to 400 announces); generated real-process fault runs",
    text="Model replies with 0-30 entries mixing well-formed and malformed peers, extra keys, rotated order, failure reasons, trailing values: peers() must be exactly the well-formed entries in order, failure reasons must be reported as errors, nothing panics. The tracker fault-sequence half (sub faults) runs unmodified Session::run in a real process.",
    note="Ports > 65535 and non-UTF-8 failure reasons not generated (unspecified).",
    design="6/C19"),
  "C20": dict(
-   technique="property-based testing (proptest arrival schedules) on the swarm runtime under tokio's paused clock; oracle = small reference reading of the keep-alive statement with an unasserted gap",
+   technique="property-based testing (proptest arrival schedules) on the swarm runtime under tokio's paused clock; oracle = small reference reading of the keep-alive statement with an unasserted gap; a deterministic keep-alive flood schedule (cooperative-budget-limited polls); coverage-guided libFuzzer campaign over the same histories (target fz_hist: hand-written byte decoder, the check's own oracle inside the target; thorough)",
    text="Arrival schedules around the 120 s ticks (119.9/120.1/239/241/359/361 s ...), nine message kinds, lively and silent phases, with or without a reserved piece: closed by last-other-message+360 s with peer state and reservation released; never closed for inactivity while gaps stay < 120 s; exactly one keep-alive per 120 s tick while alive.",
    note="Virtual time; arrivals within 0.3 s of a client tick are moved (select! coin). Silences of 120-360 s and unknown-id messages unasserted.",
    design="6/C20"),
